@@ -314,12 +314,14 @@ type c10Collector struct {
 	mu   sync.Mutex
 	obs  [][]byte
 	conn []int
+	ns   []int64 // per reply: when it was read
 }
 
 func (c *c10Collector) add(ci int, b []byte) {
 	c.mu.Lock()
 	c.obs = append(c.obs, append([]byte(nil), b...))
 	c.conn = append(c.conn, ci)
+	c.ns = append(c.ns, time.Now().UnixNano())
 	c.mu.Unlock()
 }
 func (c *c10Collector) count() int {
@@ -443,11 +445,13 @@ func c10RunOnce(s *c10Scn, addr string, imp *c10Imp) error {
 						d += time.Second
 					}
 					time.Sleep(d)
+					s.Reqs[i].SendNs = time.Now().UnixNano()
 					if _, err := conns[ci].Write(s.Reqs[i].Pkg); err != nil {
 						setErr(err)
 					}
 					continue
 				}
+				s.Reqs[i].SendNs = time.Now().UnixNano() // not later than the server's receipt (TCP: before the first write of the stream)
 				if s.UDP {
 					if _, err := conns[ci].Write(s.Reqs[i].Pkg); err != nil {
 						setErr(err)
@@ -529,6 +533,7 @@ func c10RunOnce(s *c10Scn, addr string, imp *c10Imp) error {
 	col.mu.Lock()
 	s.Obs = toB(col.obs)
 	s.ObsConn = append([]int(nil), col.conn...)
+	s.ObsNs = append([]int64(nil), col.ns...)
 	col.mu.Unlock()
 	imp.mu.Lock()
 	for i := range s.Reqs {
